@@ -25,6 +25,35 @@ fn random_case(rng: &mut Rng, s: &str) -> String {
 }
 
 pub fn c04(rng: &mut Rng, tier: &str, idx: usize) -> Case {
+    if idx % 60 == 47 {
+        // a term with ~65 000 records and a child with a few hundred of them: |A| + |B| beyond the
+        // u16 range while the union and the ontology stay within it (set-size arithmetic of the
+        // annotation-based score). No roots: the model's intersection is quadratic, so only ONE
+        // term may hold the large set.
+        let mut c = Case::new("sim-big-sets");
+        c.op("new".to_string());
+        for (id, nm) in [(2u32, "a"), (3, "b"), (4, "c")] {
+            c.op(format!("term {} {}", id, name(nm)));
+        }
+        c.op("complete".to_string());
+        c.op("parent 2 3".to_string());
+        c.op("connect".to_string());
+        let k = rng.below(3) as usize;
+        let small = rng.range(300, 900);
+        let total = rng.range(65_000, 65_534);
+        // descending id ranges (each annotation is then the smallest id of its term)
+        c.op(format!("bulkann {} {} {} {} 2", KINDS[k], 1 + small, total - small, name("only a")));
+        c.op(format!("bulkann {} 1 {} {} 3", KINDS[k], small, name("a and b")));
+        c.op(format!("ann {} 70000 {} 4", KINDS[k], name("c")));
+        c.op("ic".to_string());
+        c.op("build min 0".to_string());
+        for a in 0..8 {
+            c.op(format!("sim 0 {} {}", name(ALG_NAMES[a][0]), KINDS[k]));
+        }
+        c.stat("big_annotation_sets", 1);
+        c.nontrivial = true;
+        return c;
+    }
     if idx % 30 == 13 {
         // more than 30 common ancestors, shortcuts to high ancestors, a term with > 10 parents
         let mut c = Case::new("sim-trunk");
